@@ -170,6 +170,54 @@ def name_return(sig, ret, where):
     return sig
 
 
+def desugar_for_ranges(b, ordinals, g, where):
+    """R15: `for x in LO..HI { BODY }`  =>  `{ let verif_hi_K = HI; let mut verif_next_K = LO;
+    while verif_next_K < verif_hi_K { let x = verif_next_K; verif_next_K += 1; BODY } }`
+    (the definition of iterating an integer Range; loop ordinals are unchanged)"""
+    for k in sorted(ordinals, reverse=True):
+        offs = rustlex.loop_body_offsets(b)
+        if k > len(offs):
+            raise Undecided("%s: R15 loop #%d not found" % (where, k))
+        kw, kwpos, bpos = offs[k - 1]
+        if kw != "for":
+            raise Undecided("%s: R15 loop #%d is not a for loop" % (where, k))
+        header = b[kwpos:bpos]
+        m = re.match(r"for\s+([A-Za-z_][A-Za-z0-9_]*)\s+in\s+(.*)$", header, re.S)
+        if not m:
+            raise Undecided("%s: R15 loop #%d: unsupported header %r" % (where, k, header))
+        var, rng = m.group(1), m.group(2).strip()
+        # split on `..` at bracket depth 0
+        toks = rustlex.lex(rng)
+        pairs = rustlex.match_brackets(toks)
+        i = 0
+        split = None
+        while i < len(toks) - 1:
+            if toks[i].text in rustlex.OPEN:
+                i = pairs[i]
+            elif toks[i].text == "." and toks[i + 1].text == "." and toks[i + 1].start == toks[i].end:
+                split = (toks[i].start, toks[i + 1].end)
+                break
+            i += 1
+        if split is None or rng[split[1]:split[1] + 1] == "=":
+            raise Undecided("%s: R15 loop #%d: not a half-open integer range: %r" % (where, k, rng))
+        lo, hi = rng[:split[0]].strip(), rng[split[1]:].strip()
+        if lo.startswith("(") and lo.endswith(")"):
+            pass
+        btoks = rustlex.lex(b)
+        bpairs = rustlex.match_brackets(btoks)
+        close = None
+        for o, c in bpairs.items():
+            if btoks[o].start == bpos:
+                close = btoks[c].start
+        new_head = "{ let verif_hi_%d = %s; let mut verif_next_%d = %s;\n        while verif_next_%d < verif_hi_%d\n        " % (k, hi, k, lo, k, k)
+        body_intro = " let %s = verif_next_%d; verif_next_%d += 1;" % (var, k, k)
+        b = b[:kwpos] + new_head + "{" + body_intro + b[bpos + 1:close + 1] + " }" + b[close + 1:]
+        g.rewrites.append({"item": where, "rule": "R15", "loop": k, "old": header.strip(),
+                           "new": (new_head + "{" + body_intro).strip(),
+                           "why": "for over an integer range whose body contains `continue` (unsupported in Verus for-loops) -> the loop's own counter/while desugaring"})
+    return b
+
+
 class Generated:
     def __init__(self):
         self.lines = []          # generated text lines
@@ -264,6 +312,8 @@ def gen_fn(fn, g, probe_labels, unit_name):
     else:
         b = body
         b = apply_rewrites(b, fn.rewrites, g.rewrites, where)
+        if getattr(fn, "for_to_while", None):
+            b = desugar_for_ranges(b, fn.for_to_while, g, where)
         # loops: insert contracts before the body brace of the k-th loop (ordinals w.r.t. the
         # original body text after literal rewrites, before ghost inserts)
         if fn.loops:
